@@ -204,7 +204,7 @@ func (s *c13lSim) logf(f string, a ...any) {
 		s.hist = append(s.hist, fmt.Sprintf(f, a...))
 	}
 }
-func (s *c13lSim) label(l string)           { s.labels[l] = true }
+func (s *c13lSim) label(l string) { s.labels[l] = true }
 
 func (s *c13lSim) dump() map[string]any {
 	return map[string]any{"history": s.hist, "height": s.height, "epoch_blocks": params.CoinbaseEpochBlocks, "depths": params.LockupByteToBlockDepth}
